@@ -160,6 +160,20 @@ def install(ctx):
         w = read_loc(args[0].loc)
         return opt_sym(w.alive, w.arc)
 
+    @M.reg('Weak::strong_count', 'Arc::strong_count')
+    def weak_strong_count(ip, pc, args, dt):
+        w = read_loc(args[0].loc)
+        n = ip.path.fresh('strong_count')
+        if isinstance(w, WeakV):
+            ip.path.assume(z3.If(w.alive, z3.And(n >= 1, n < (1 << 32)), n == 0))
+        else:
+            ip.path.assume(z3.And(n >= 1, n < (1 << 32)))
+        return S(n, 'usize')
+
+    @M.reg('Weak::clone')
+    def weak_clone(ip, pc, args, dt):
+        return read_loc(args[0].loc)
+
     # ---------------------------------------------------------- Notify
     @M.reg('Notify::new')
     def notify_new(ip, pc, args, dt):
@@ -198,8 +212,11 @@ def install(ctx):
 
     @M.reg('<FutureExt>::shared', 'FutureExt::shared')
     def shared(ip, pc, args, dt):
-        from models_async import Leaf
-        return Leaf('deleted', args[0])
+        from models_async import Leaf, SharedM, OneshotRx
+        a = args[0]
+        if isinstance(a, OneshotRx) or (isinstance(a, Leaf) and a.kind == 'oneshot.recv') or not isinstance(a, (Enum, Agg, Leaf)):
+            return Leaf('deleted', a)          # the observer's deletion one-shot
+        return SharedM(a)
 
     # ---------------------------------------------------------- logging / formatting
     @M.reg('log::max_level', 'max_level')
